@@ -59,6 +59,16 @@ def run(seed, tier, replay=None):
                                    "kind": k})
         if i.split(" ## ")[-1] != m.split(" ## ")[-1] and not any(k in mon for k in ("panic",)):
             violations.append({"what": f"scheduler ends differently from the model: impl={i.split(' ## ')[-1]} model={m.split(' ## ')[-1]}", "payload": {"request": q, "impl": i, "model": m}, "kind": "sched-end"})
+    # the priority queue must contain every listed test exactly once (nothing dropped or duplicated before scheduling)
+    rp = common.run_streams([("p_prio", [seed, 300 if tier == "quick" else 6000, vlib.BUILD + "/prio-tmp"])])
+    for (b, args, idx, req, impl) in rp.cases:
+        want = sorted(f"{bn.split(':')[0]}/{t}" for bn in req.split(" ")[1].split(";") for t in (bn.split(":")[1].split(",") if bn.split(":")[1] != "." else []))
+        got = sorted(impl.split(",")) if impl != "." else []
+        if want != got:
+            violations.append({"what": f"the dispatch queue is not a permutation of the test list: missing {sorted(set(want) - set(got))[:5]} extra/duplicated {[x for x in got if got.count(x) > 1 or x not in want][:5]}",
+                               "payload": {"stream": [b, args], "line_index": idx, "request": req, "impl": impl}, "kind": "queue-perm"})
+        if len(want) >= 3: nt.add(req)
+    r.broken += rp.broken
     for k, v in r2.dist.items(): r.dist["sched:" + k] = v
     samples = [f"{q}  =>  {i[:300]}" for (_, q, i) in items[:2]] + [f"{q}  =>  {i}" for (_, q, i) in items2[:2]]
     return {
